@@ -9,6 +9,7 @@
    follows the repaired code; the formerly failing input is part of the non-vacuity example below. *)
 From EG Require Import Base.Prelude Model.Geometry Model.Style Model.Line Model.Thickline Model.Join Model.JoinTri.
 From EG Require Import Proofs.Join Proofs.JoinTri Proofs.JoinHull Proofs.JoinDraw Proofs.JoinTriDraw.
+From EG Require Proofs.JoinTriFill.
 Set Default Timeout 60.
 
 (* every corner of every segment that is not a skeleton, and the drawn (right) edge of every skeleton, lies in the box *)
@@ -54,6 +55,23 @@ Theorem C02_join_triangle_stroke_in_bbox_partial : forall t w al hf segs rs row 
   jt_rows t w al hf = Some rs -> In row rs -> In (s, PStroke) row -> In p (sl_points s) ->
   contains (segments_bounding_box segs) p = true.
 Proof. exact tri_stroke_in_bbox. Qed.
+
+(* triangles whose styled bounding box is Triangle::bounding_box:
+   (a) stroke width 0 (the fill, every alignment) and the collapsed Inside stroke: every point of every line lies in it *)
+Theorem C02_join_triangle_fill_like_in_bbox : forall t w al hf rs row lk p, tri_big t ->
+  (w = 0 \/ exists c, jt_is_collapsed (jt_sorted_clockwise t) w (so_of_alignment al) = Some c /\
+                      (0 <? w) && c && so_eqb (so_of_alignment al) SORight = true) ->
+  jt_rows t w al hf = Some rs -> In row rs -> In lk row -> In p (sl_points (fst lk)) ->
+  jt_styled_bounding_box t w al = Some (jt_bounding_box t) /\ contains (jt_bounding_box t) p = true.
+Proof. exact Proofs.JoinTriFill.fill_like_in_bbox. Qed.
+
+(* (b) stroke width 1, Center: the outline is the union of three Bresenham lines between vertices (C19_join_tri_outline_w1),
+   which lie in the box of the vertices *)
+Theorem C02_join_triangle_outline_w1_in_bbox : forall t p,
+  let '(a, b, c) := jt_sorted_clockwise t in
+  In p (line_points (L b c)) \/ In p (line_points (L c a)) \/ In p (line_points (L a b)) ->
+  contains (jt_bounding_box t) p = true.
+Proof. exact Proofs.JoinTriFill.outline_in_bbox. Qed.
 
 (* the geometric core: the scanline of a thick segment stays inside the x hull of the corners of its two joins *)
 Theorem C02_join_thick_segment_scanline_in_hull : forall lo hi t y,
